@@ -29,6 +29,9 @@
     [exhaust]: both together on the fragment: asking for at least as many
     sequences as there are keys returns every valid sequence exactly once.
 
+    [Frag0Enum.f0_enum_plain fb] is the enumerator of a design of [frag1] in
+    closed form (per-round count = q!/(q-n)! * prod |levels|^n, empty memo
+    tables).
     Full statements: every design RandomGen accepts; proved for [Frag.frag1]
     (see Properties/C04.v; it contains the earlier [Frag.frag0]) - hence
     [_partial].  [_frag2]: the same with weights ([Frag.frag2], see
@@ -57,24 +60,24 @@ Print Assumptions C06_accepted_exact_partial.
 
 Theorem C06_count_exact_partial : forall (fb : flat), frag1 fb = true ->
   fl_errors_fail fb = false -> rejection_free fb = true ->
-  make_enumerator fb = ROk (f0_enum fb nil nil) /\
+  make_enumerator fb = ROk (f0_enum_plain fb) /\
   NoDup (map (cand_tseq fb) (keys_of fb)) /\
   (forall s, In s (map (cand_tseq fb) (keys_of fb)) <-> valid_b (code_sem fb) s = true) /\
-  Z.of_nat (length (map (cand_tseq fb) (keys_of fb))) = possible_keys fb (f0_enum fb nil nil).
+  Z.of_nat (length (map (cand_tseq fb) (keys_of fb))) = possible_keys fb (f0_enum_plain fb).
 Proof. exact f1_count_exact. Qed.
 Print Assumptions C06_count_exact_partial.
 
 (** the earlier statement (fragment frag0, where nothing is ever rejected) is an instance *)
 Theorem C06_count_exact_frag0 : forall (fb : flat), frag0 fb = true -> fl_errors_fail fb = false ->
-  make_enumerator fb = ROk (f0_enum fb nil nil) /\
+  make_enumerator fb = ROk (f0_enum_plain fb) /\
   NoDup (map (cand_tseq fb) (keys_of fb)) /\
   (forall s, In s (map (cand_tseq fb) (keys_of fb)) <-> valid_b (code_sem fb) s = true) /\
-  Z.of_nat (length (map (cand_tseq fb) (keys_of fb))) = possible_keys fb (f0_enum fb nil nil).
+  Z.of_nat (length (map (cand_tseq fb) (keys_of fb))) = possible_keys fb (f0_enum_plain fb).
 Proof. exact f0_count_exact. Qed.
 Print Assumptions C06_count_exact_frag0.
 
 Theorem C06_keys_count_partial : forall (fb : flat), frag1 fb = true -> fl_errors_fail fb = false ->
-  make_enumerator fb = ROk (f0_enum fb nil nil) /\ Z.of_nat (length (keys_of fb)) = possible_keys fb (f0_enum fb nil nil).
+  make_enumerator fb = ROk (f0_enum_plain fb) /\ Z.of_nat (length (keys_of fb)) = possible_keys fb (f0_enum_plain fb).
 Proof. exact f1_keys_count. Qed.
 Print Assumptions C06_keys_count_partial.
 
@@ -183,4 +186,17 @@ Example C06_example_multicross :
 Proof.
   split; [exact ex4_frag2|]. split; [reflexivity|]. split; [exact ex4_nkeys|]. split; [exact ex4_nacc|].
   split; [exact ex4_nvalid | exact ex4_acount].
+Qed.
+
+(** a derived factor in the sampled crossing: nothing is rejected, 96 keys = [possible_keys] = 96 valid sequences;
+    with an excluded level of the source factor 24 of the 96 keys are accepted *)
+Example C06_example_derived :
+  frag2 ex6_flat = true /\ has_derived ex6_flat = true /\ rejection_free ex6_flat = true /\
+  length (keys_of ex6_flat) = 96 /\ length (all_valid (code_sem ex6_flat)) = 96 /\ check_count ex6_flat = true /\
+  frag2 ex7_flat = true /\ rejection_free ex7_flat = false /\ length (accepted_keys ex7_flat) = 24 /\
+  length (all_valid (code_sem ex7_flat)) = 24 /\ check_accepted_count ex7_flat = true.
+Proof.
+  split; [exact ex6_frag2|]. split; [exact ex6_derived|]. split; [exact ex6_rejection_free|]. split; [exact ex6_nkeys|].
+  split; [exact ex6_nvalid|]. split; [exact ex6_count|]. split; [exact ex7_frag2|]. split; [exact ex7_rejection_free|].
+  split; [exact ex7_nacc|]. split; [exact ex7_nvalid | exact ex7_acount].
 Qed.
